@@ -131,7 +131,9 @@ def resRelabelled (perm adjS resS : String) : String :=
       mvec n fun i => showRat (Circuit.anad n adj adm i),
       mvec n fun i => showRat (Circuit.localClustering n adj adm i),
       showRat (Circuit.globalClustering n adj adm),
-      mrows n fun i j => showRat (Circuit.effRes R0 i j)] "|"
+      mrows n fun i j => showRat (Circuit.effRes R0 i j),
+      mvec n fun i => showRat (Circuit.vcfbKernel n 1 1 adm R i),
+      mrows n fun i j => showRat (Circuit.ecfbKernel n 1 1 adm R i j)] "|"
   | _, _ => "no-pinv"
 
 def geoT : Geo.Trig Rat := { sin := id, cos := id, arccos := id, sqrt := id, rad := id }
